@@ -11,40 +11,40 @@ type PropInfo struct {
 
 var propInfo = map[string]PropInfo{
 	"C01": {
-		Decides:    "Decides necessary structural clauses of the Raft property: the apply function stores and forwards the same pin value on each branch and fails when the state call fails; the reused LogOp is cleared before the tracker goroutine starts; no wire enum constant is zero; commit/AddPeer/RmPeer return nil only on a committed or redirected path; snapshot restore deletes the namespace before writing; snapshot precedes raft shutdown precedes store close.",
+		Decides:    "Decides necessary structural clauses of the Raft property: the apply function stores and forwards the same pin value on each branch and fails when the state call fails; the reused LogOp is cleared before the tracker goroutine starts; no wire enum constant is zero; commit/AddPeer/RmPeer return nil only on a committed or redirected path; snapshot restore deletes the namespace before writing; snapshot precedes raft shutdown precedes store close. Also (shared rules): each snapshot entry is decoded into a fresh record (R14.2), the protobuf writer stores every pin field it later restores (R08.3).",
 		NotDecided: "that hashicorp/raft delivers one sequence, value-level msgpack round trips, crash points inside BoltDB, that Track eventually runs.",
 	},
 	"C02": {
-		Decides:    "Decides: LogPin/LogUnpin return nil only after enqueueing or after the direct state call, and the full-queue arm returns an error without touching the state; exactly one batch worker goroutine and one receiver on the queue (FIFO); the worker applies Add for pins and Rm for unpins on the received item; Put/Delete hooks reach PinTracker.Track/Untrack; the batching timer is armed whenever the batch is non-empty.",
+		Decides:    "Decides: LogPin/LogUnpin return nil only after enqueueing or after the direct state call, and the full-queue arm returns an error without touching the state; exactly one batch worker goroutine and one receiver on the queue (FIFO); the worker applies Add for pins and Rm for unpins on the received item; Put/Delete hooks reach PinTracker.Track/Untrack; the batching timer is armed whenever the batch is non-empty. Also: BatchingState.Commit returns the datastore batch's own error (R02.7); the pubsub validator tests the signer, and gossipsub verifies signatures strictly (R07.6, R07.9).",
 		NotDecided: "convergence of replicas under all delivery orders (go-ds-crdt), thresholds as numbers, datastore behaviour on partial batch failure.",
 	},
 	"C03": {
-		Decides:    "Decides: every metric entering the current/candidate/priority sets passed the exclusion-list test; candidates come only from the monitor's latest valid metrics; allocation is preceded by replication-factor validation; the -1 (everywhere) case returns an empty list without allocating; both allocators put priority peers first, sort with one direction each (opposite between them), and the sorter skips discarded and non-numeric metrics. Also: preset allocations are cleared under the everywhere test evaluated after the configured defaults replaced unset factors; the option comparison that decides whether allocation is skipped (PinOptions.Equals, R04.2/R04.6) reads every field of both operands.",
+		Decides:    "Decides: every metric entering the current/candidate/priority sets passed the exclusion-list test; candidates come only from the monitor's latest valid metrics; allocation is preceded by replication-factor validation; the -1 (everywhere) case returns an empty list without allocating; both allocators put priority peers first, sort with one direction each (opposite between them), and the sorter skips discarded and non-numeric metrics. Also: preset allocations are cleared under the everywhere test evaluated after the configured defaults replaced unset factors; the option comparison that decides whether allocation is skipped (PinOptions.Equals, R04.2/R04.6) reads every field of both operands. Also: what is compared with needed/wanted in obtainAllocations counts new peers only (R03.6); informers mark a metric valid only when their query succeeded and give it the configured TTL (R09.8).",
 		NotDecided: "the needed/wanted arithmetic, truncation to max, min <= |result| <= max (numeric over runtime map sizes).",
 	},
 	"C04": {
-		Decides:    "Decides: every cluster-level entry point that can reach Consensus.LogPin/LogUnpin does so only behind the follower-mode guard; PinOptions.Equals / Pin.Equals compare every field, map and slice fields symmetrically; LogPin in pin() is preceded by successful setupPin (factor validity, expiry, type and mode checks); Unpin's type switch is exhaustive and only data/meta arms log an unpin; PinUpdate never reaches LogUnpin and logs the stored source pin with only cid/update/name/expiry replaced; the same-options shortcut requires an existing pin, equal options and an empty exclusion list. Also: the membership flags of the nested element comparisons in Equals are per element (not carried across iterations).",
+		Decides:    "Decides: every cluster-level entry point that can reach Consensus.LogPin/LogUnpin does so only behind the follower-mode guard; PinOptions.Equals / Pin.Equals compare every field, map and slice fields symmetrically; LogPin in pin() is preceded by successful setupPin (factor validity, expiry, type and mode checks); Unpin's type switch is exhaustive and only data/meta arms log an unpin; PinUpdate never reaches LogUnpin and logs the stored source pin with only cid/update/name/expiry replaced; the same-options shortcut requires an existing pin, equal options and an empty exclusion list. Also: the membership flags of the nested element comparisons in Equals are per element (not carried across iterations). Also: unpinning sharded content unpins its cluster-DAG and shard entries first, from a list computed without error, sweeping every element (R04.7); invalid factors are refused by every test of isReplicationFactorValid (R03.3).",
 		NotDecided: "the allocation attached to the stored pin (C03), histories of calls, what consensus does with the logged pin.",
 	},
 	"C05": {
-		Decides:    "Decides: every re-issued pin operation carries the pin object received from Track or read from the shared state (never a default pin built from the bare CID); a full queue sets the error, cancels and returns an error; the worker sets in-progress before the IPFS call, error+cancel on failure, done+cancel+clean on success; Track ignores meta pins, unpins remote pins, enqueues the given pin otherwise; TrackNewOperation dedupes only same-type unfinished operations and cancels the one it replaces, under the tracker lock. Also: no exit of enqueue precedes the recording of the request in the operation tracker; each queue channel reaches the send only on paths where the operation type is the matching one.",
+		Decides:    "Decides: every re-issued pin operation carries the pin object received from Track or read from the shared state (never a default pin built from the bare CID); a full queue sets the error, cancels and returns an error; the worker sets in-progress before the IPFS call, error+cancel on failure, done+cancel+clean on success; Track ignores meta pins, unpins remote pins, enqueues the given pin otherwise; TrackNewOperation dedupes only same-type unfinished operations and cancels the one it replaces, under the tracker lock. Also: no exit of enqueue precedes the recording of the request in the operation tracker; each queue channel reaches the send only on paths where the operation type is the matching one. Also: the connector's pin/unpin requests run under a context derived from the caller's (the operation's) context (R16.6).",
 		NotDecided: "quiescence, interleavings of completions, the daemon's actual state.",
 	},
 	"C06": {
-		Decides:    "Decides: every entry returned by StatusAll passed Match(filter); the filter shortcut masks in localStatus cover every status the guarded regions can produce; Operation.ToTrackerStatus is total over (type, phase) with each pair mapped to the status class the property names; Status and StatusAll put the unexpectedly-unpinned case in the same class and decide meta before remote before IPFS; tracker-status string table covers every constant and the composite filters equal the OR of their members; GlobalPinInfo is keyed by peer. Also: StatusAll overlays the complete list of tracked operations onto the local listing unconditionally (as Status does per CID); a full queue leaves an error entry, never a stale queued one (R05.2).",
+		Decides:    "Decides: every entry returned by StatusAll passed Match(filter); the filter shortcut masks in localStatus cover every status the guarded regions can produce; Operation.ToTrackerStatus is total over (type, phase) with each pair mapped to the status class the property names; Status and StatusAll put the unexpectedly-unpinned case in the same class and decide meta before remote before IPFS; tracker-status string table covers every constant and the composite filters equal the OR of their members; GlobalPinInfo is keyed by peer. Also: StatusAll overlays the complete list of tracked operations onto the local listing unconditionally (as Status does per CID); a full queue leaves an error entry, never a stale queued one (R05.2). Also: Status decides meta before remote as the listing does; the per-CID IPFS query depends on the recorded pin's mode (R06.9).",
 		NotDecided: "truth with respect to the daemon's actual pin set; quiescence; cluster-wide aggregation over runtime peer sets.",
 	},
 	"C07": {
-		Decides:    "Decides: every RPC method of the five registered services has a policy entry and vice versa; the authorisation closure returns true only for open endpoints, the trust predicate's answer for trusted ones and false otherwise, and is installed on both server constructions; no open endpoint can reach pinset writes, tracker or IPFS-driving calls; no endpoint is more permissive than the reviewed table and new endpoints are closed (or trusted with a remote caller); the trust predicates, Trust/Distrust and the pubsub validator have the required shape and validator registration is fail-closed. Also: the reset TrustAll = false dominates every successful exit of the JSON loader (the default is trust-all).",
+		Decides:    "Decides: every RPC method of the five registered services has a policy entry and vice versa; the authorisation closure returns true only for open endpoints, the trust predicate's answer for trusted ones and false otherwise, and is installed on both server constructions; no open endpoint can reach pinset writes, tracker or IPFS-driving calls; no endpoint is more permissive than the reviewed table and new endpoints are closed (or trusted with a remote caller); the trust predicates, Trust/Distrust and the pubsub validator have the required shape and validator registration is fail-closed. Also: the reset TrustAll = false dominates every successful exit of the JSON loader (the default is trust-all). Also: argument and reply types at every gorpc call site are the endpoint's (R07.8); gossipsub signs and strictly verifies, Trust/Distrust reach the trusted set on every successful path (R07.9).",
 		NotDecided: "libp2p's authentication of the remote peer id, gorpc's own dispatch, pubsub signature checking.",
 		Exhaustive: "the RPC policy table and the RPC method sets of the five services (finite tables enumerated completely)",
 	},
 	"C08": {
-		Decides:    "Decides type- and table-level necessary conditions: no record type crossing a json/msgpack boundary contains a non-empty interface without custom (un)marshalers; codec/json keys are unique per struct after embedding; protobuf writer and reader touch the same fields and every api.Pin field is restored; query-string writer keys are a subset of reader keys; enum string tables are mutually inverse on the declared constants; decoder functions do not panic, use unchecked type assertions or drop callee errors. Also: slices sized beforehand and filled by index in a decoder get their element on every path that continues the loop (no nil hole).",
+		Decides:    "Decides type- and table-level necessary conditions: no record type crossing a json/msgpack boundary contains a non-empty interface without custom (un)marshalers; codec/json keys are unique per struct after embedding; protobuf writer and reader touch the same fields and every api.Pin field is restored; query-string writer keys are a subset of reader keys; enum string tables are mutually inverse on the declared constants; decoder functions do not panic, use unchecked type assertions or drop callee errors. Also: slices sized beforehand and filled by index in a decoder get their element on every path that continues the loop (no nil hole). Also: decode targets inside loops are per iteration, repo-wide (R08.7); indexed fills of nil-like elements are complete repo-wide.",
 		NotDecided: "value equality after decode(encode(x)), sub-second expiry, behaviour of the codec/protobuf/multiaddr/cid libraries on arbitrary bytes.",
 	},
 	"C09": {
-		Decides:    "Decides: LatestValid appends at most one metric per peer and only when it is valid and unexpired; LatestMetrics returns unfiltered metrics only when no peerset is known; the failure checker reports failure only when there is no metric or the latest expired; after the alert threshold the peer's metrics are forgotten and no alert is sent; ping TTL is a multiple >1 of the ping interval and informer metrics are re-published at a fraction <1 of their TTL. Also: Discard is evaluated on all four (Valid, Expired) combinations; one effective timer re-arm per publishing round, and TTL/k_ok + TTL/k_err < TTL so that one failed publish is retried before expiry.",
+		Decides:    "Decides: LatestValid appends at most one metric per peer and only when it is valid and unexpired; LatestMetrics returns unfiltered metrics only when no peerset is known; the failure checker reports failure only when there is no metric or the latest expired; after the alert threshold the peer's metrics are forgotten and no alert is sent; ping TTL is a multiple >1 of the ping interval and informer metrics are re-published at a fraction <1 of their TTL. Also: Discard is evaluated on all four (Valid, Expired) combinations; one effective timer re-arm per publishing round, and TTL/k_ok + TTL/k_err < TTL so that one failed publish is retried before expiry. Also: one alert decision per (metric name, peer) and round (R09.7); informer siblings agree on Valid and TTL (R09.8).",
 		NotDecided: "arrival histories, window wrap-around, 'alerts once' across check rounds.",
 	},
 	"C10": {
@@ -52,29 +52,29 @@ var propInfo = map[string]PropInfo{
 		NotDecided: "that exactly one peer is closest (hash arithmetic, peerset agreement), re-allocation counts (C03).",
 	},
 	"C11": {
-		Decides:    "Decides: on every path of every REST handler exactly one response is written and no cluster operation follows an error response; parse helpers return the zero value iff they responded; the parsed pin is not modified after option parsing; the server's handler chain passes through basic auth before CORS and the router, for both listeners; the auth closure serves only with matching credentials and returns after 401; each client-library call matches exactly the server route of the same name (first match in registration order) with query keys the handler reads; GET routes reach no mutating RPC.",
+		Decides:    "Decides: on every path of every REST handler exactly one response is written and no cluster operation follows an error response; parse helpers return the zero value iff they responded; the parsed pin is not modified after option parsing; the server's handler chain passes through basic auth before CORS and the router, for both listeners; the auth closure serves only with matching credentials and returns after 401; each client-library call matches exactly the server route of the same name (first match in registration order) with query keys the handler reads; GET routes reach no mutating RPC. Also: the client decodes each response into the type every answer of the handler has (R11.5 body); the stream-error trailer is announced, set on failure, read after the body and turned into an error (R11.7); RPC argument/reply types match the endpoint (R07.8).",
 		NotDecided: "the precise 4xx code, mux's matching of arbitrary bytes, TLS, timing-safe comparison.",
 		Exhaustive: "the REST route table and the client library's request sites (finite tables)",
 	},
 	"C12": {
-		Decides:    "Decides: hijack handlers write at most one response head and perform no cluster operation after an error response; requests built by the proxy towards the daemon are OPTIONS or the header-extraction path only and hijack handlers never reach the reverse proxy; the hijacked route set, methods and prefix are as specified with the catch-all registered last; mutating routes reach the replacing cluster operation and read-only routes reach no mutating RPC; slash handlers delegate with the path argument.",
+		Decides:    "Decides: hijack handlers write at most one response head and perform no cluster operation after an error response; requests built by the proxy towards the daemon are OPTIONS or the header-extraction path only and hijack handlers never reach the reverse proxy; the hijacked route set, methods and prefix are as specified with the catch-all registered last; mutating routes reach the replacing cluster operation and read-only routes reach no mutating RPC; slash handlers delegate with the path argument. Also: RPC argument/reply types match the endpoint at every call site of the proxy (R07.8).",
 		NotDecided: "byte-identical relay (httputil.ReverseProxy), semantics of add options.",
 	},
 	"C13": {
-		Decides:    "Decides the pinning discipline only: Finalize is not reached after an add error, iterator error or cancellation; only the finalisers/shard flush pin through the adder; the root pin's allocations are the allocations the blocks were sent to; sharded pins are built with the type/depth/reference shape the pin validator requires. Also: every pin of the sharding finaliser and of the shard flush is dominated by the successful delivery of the DAG it pins and no block is sent after a pin; a block counts as delivered only if some destination took it.",
+		Decides:    "Decides the pinning discipline only: Finalize is not reached after an add error, iterator error or cancellation; only the finalisers/shard flush pin through the adder; the root pin's allocations are the allocations the blocks were sent to; sharded pins are built with the type/depth/reference shape the pin validator requires. Also: every pin of the sharding finaliser and of the shard flush is dominated by the successful delivery of the DAG it pins and no block is sent after a pin; a block counts as delivered only if some destination took it. Also: adder.Pin keeps the block destinations unless the factor is below zero and submits the pin it was given; no test inside makeDAG's leaf loop is made constant by the loop bound (R13.9).",
 		NotDecided: "DAG closure, byte identity, root equality with the IPFS importer, shard size arithmetic, partial block-put failures.",
 	},
 	"C14": {
-		Decides:    "Decides: import cleans the state before importing in both consensus back ends and snapshot restore replaces the namespace; export and import use the same JSON type; snapshot save and offline read use the same codec and namespace and cancel/close the sink correctly; an unparsable peerstore line is never used; peerstore save keeps slice order and sorts by priority.",
+		Decides:    "Decides: import cleans the state before importing in both consensus back ends and snapshot restore replaces the namespace; export and import use the same JSON type; snapshot save and offline read use the same codec and namespace and cancel/close the sink correctly; an unparsable peerstore line is never used; peerstore save keeps slice order and sorts by priority. Also: the backup rotation lists a contiguous run, vacates the oldest slot recursively, moves the live folder last (R17.6).",
 		NotDecided: "backup rotation arithmetic, file-system effects, snapshot store behaviour.",
 	},
 	"C15": {
-		Decides:    "Decides: every field of every component's JSON struct is both saved and loaded; every loader returns through Validate; the section dispatcher covers all section types; JSON fields derived from secrets are tagged hidden and every ToDisplayJSON goes through DisplayJSON, which replaces exactly the hidden fields. Also: config.SetIfNotDefault skips exactly the zero value; no JSON setting is read only under a condition on a different setting; pointer-typed settings are assigned directly under a nil test.",
+		Decides:    "Decides: every field of every component's JSON struct is both saved and loaded; every loader returns through Validate; the section dispatcher covers all section types; JSON fields derived from secrets are tagged hidden and every ToDisplayJSON goes through DisplayJSON, which replaces exactly the hidden fields. Also: config.SetIfNotDefault skips exactly the zero value; no JSON setting is read only under a condition on a different setting; pointer-typed settings are assigned directly under a nil test. Also: settings are not crossed between save and load (R15.9); list settings are reset before appending (R15.10); environment overrides start from the current configuration (R15.11); no loader discards a parser's outcome (R15.12).",
 		NotDecided: "that defaults pass Validate, value-level round trip of durations/multiaddresses, envconfig parsing.",
 		Exhaustive: "the ComponentConfig implementations and their JSON struct fields (finite tables)",
 	},
 	"C16": {
-		Decides:    "Decides: Pin returns nil only after an is-pinned answer, or as the result of pin-update or of the progress loop; the progress loop returns nil only on EOF with a live context after checkResponse; pin-update is attempted only when the source is pinned recursively and its request carries unpin=false; Unpin tolerates only the not-pinned errors and refuses early when unpinning is disabled; non-200 responses and transport errors always become errors.",
+		Decides:    "Decides: Pin returns nil only after an is-pinned answer, or as the result of pin-update or of the progress loop; the progress loop returns nil only on EOF with a live context after checkResponse; pin-update is attempted only when the source is pinned recursively and its request carries unpin=false; Unpin tolerates only the not-pinned errors and refuses early when unpinning is disabled; non-200 responses and transport errors always become errors. Also: request contexts derive from the caller's context (R16.6); pin_timeout/unpin_timeout are not crossed when saved or loaded (R15.9).",
 		NotDecided: "the daemon's behaviour, stalls, partial progress streams.",
 	},
 	"C17": {
